@@ -8,14 +8,14 @@ Local Arguments Z.modulo : simpl never.
 Local Arguments Z.div : simpl never.
 
 (* ---- Murmur3 token ----------------------------------------------------------------------------------- *)
-Lemma murmur_token_iff key : wf_bytes key -> key <> [] ->
-  (murmur3_token key = cassandra_murmur3_token key <-> cassandra_h1 key <> long_min).
+Lemma murmur_token_eq key : wf_bytes key -> key <> [] ->
+  murmur3_token key = cassandra_murmur3_token key /\ murmur3_token key <> long_min.
 Proof.
-  intros Hwf Hne. unfold murmur3_token, cassandra_murmur3_token. rewrite murmur_go_eq_cassandra_lemma by assumption.
-  destruct key as [|b key]; [congruence|]. unfold normalize.
-  destruct (Z.eqb_spec (cassandra_h1 (b :: key)) long_min) as [E|E].
-  - rewrite E. split; [intros H; exfalso; revert H; vm_compute; discriminate | congruence].
-  - split; auto.
+  intros Hwf Hne. unfold murmur3_token, cassandra_murmur3_token. cbv zeta.
+  rewrite murmur_go_eq_cassandra_lemma by assumption.
+  destruct key as [|b key]; [congruence|]. unfold normalize, long_min, long_max.
+  destruct (Z.eqb_spec (cassandra_h1 (b :: key)) (- 2 ^ 63)) as [E|E]; split; try reflexivity; try assumption.
+  vm_compute. discriminate.
 Qed.
 
 (* ---- Random token ------------------------------------------------------------------------------------ *)
